@@ -144,7 +144,6 @@ def _sed(ctx, case, rec, d, key):
         s.flux = cells * uq
         s.error = err * uq
         from mc.canon import canon
-        before = canon([s.name, s.distance, s.wav, s.nu, s.apertures, s.flux, s.error])
         _, e = _try(rec, 'sed-write', case, lambda: s.write(fn))
         rec.ev()
         rec.trans()
@@ -157,8 +156,16 @@ def _sed(ctx, case, rec, d, key):
         rec.cls('written-twice')
         if e:
             return
-        if canon([s.name, s.distance, s.wav, s.nu, s.apertures, s.flux, s.error]) != before:
-            _viol(rec, 'sed-write|object-modified', case, {'problem': 'SED.write changed the object it was asked to write'})
+        # the object must still describe the same cells afterwards (a consistent re-ordering of the whole object would be fine)
+        still = (s.name == 'model_x' and len(s.wav) == n_wav)
+        if still:
+            sw = s.wav.to(u.micron).value
+            for j in range(n_wav):
+                kk = int(np.argmin(np.abs(wav - sw[j])))
+                still = still and abs(wav[kk] - sw[j]) <= 1e-12 * wav[kk] and _close(s.flux.to(uq).value[:, j], cells[:, kk]) and _close(s.error.to(uq).value[:, j], err[:, kk]) \
+                    and abs(s.nu.to(u.Hz).value[j] - pkgwriter.C_M_S / (sw[j] * 1e-6)) <= 1e-6 * s.nu.to(u.Hz).value[j]
+        if not still:
+            _viol(rec, 'sed-write|object-modified', case, {'problem': 'after SED.write the object no longer holds the cells it was given'})
         fn = fn2 if (n_wav + n_ap) % 2 else fn        # half of the configurations go on with the second file
     else:
         pkgwriter.write_sed_file(d, 'model_x', wav, cells, err, apertures_au=ap, unit=uq.to_string(format='fits'), filename='sed.fits')
